@@ -1097,6 +1097,14 @@ fn boxed_programs() -> Vec<(&'static str, String)> {
     v.push(("let from a tuple projection", "type rec List = Nil | Cons(float, List)\nfn dsp() -> float {\n    let t = (Cons(1.0, Nil), 2.0);\n    let c = t.0;\n    t.1\n}\n".to_string()));
     v.push(("let from a record field", "type rec List = Nil | Cons(float, List)\nfn dsp() -> float {\n    let r = {l = Cons(1.0, Nil), v = 2.0};\n    let c = r.l;\n    r.v\n}\n".to_string()));
     v.push(("let from a variable", "type rec List = Nil | Cons(float, List)\nfn dsp() -> float {\n    let a = (Cons(1.0, Nil), 3.0);\n    let b = a;\n    b.1\n}\n".to_string()));
+    // TWO recursive types whose names share a suffix, with different payload layouts, values of both alive, a chain of the
+    // shorter-named one built in an inner block (seed C12p: the release cascade looks the type up in the type table)
+    for (name, body) in [
+        ("two recursive types, the longer-named one used first", "    let e0 = Ev(0.0, 1.0, End);\n    let e1 = Ev(1.0, 2.0, e0);\n    let v = {\n        let t = Cons(2.0, Nil);\n        let u = Cons(3.0, t);\n        Cons(4.0, u)\n    };\n    1.0"),
+        ("two recursive types, the shorter-named one used first", "    let v = {\n        let t = Cons(2.0, Nil);\n        let u = Cons(3.0, t);\n        Cons(4.0, u)\n    };\n    let e0 = Ev(0.0, 1.0, End);\n    let e1 = Ev(1.0, 2.0, e0);\n    1.0"),
+    ] {
+        v.push((name, format!("type rec EventList = End | Ev(float, float, EventList)\ntype rec List = Nil | Cons(float, List)\nfn dsp()->float{{\n{body}\n}}\n")));
+    }
     // closures that are still open when their frame returns -- through Return (value) and through Return0 (unit frame)
     v.push(("open closure in a value-returning frame", "fn scale(k){\n    (|y| { y*k })(4.0)\n}\nfn dsp() -> float {\n    scale(2.0)\n}\n".to_string()));
     v.push(("open closure applied in a unit-returning frame", "let acc = 0.0\nfn bump(k){\n    (|y| { acc = acc + y*k })(1.0)\n}\nfn dsp() -> float {\n    bump(2.0)\n    acc\n}\n".to_string()));
@@ -1646,6 +1654,20 @@ fn main() {
         }
         std::panic::set_hook(prev);
         println!("NONE tried={}", macroresult::programs().len());
+        return;
+    }
+    if args.get(1).map(|s| s.as_str()) == Some("sched-state") {
+        // known finding F34 (C05): a scheduled task that owns state.  Whatever storage the task's own counter lives in, it must
+        // not be dsp's cell: dsp's counter (the output modulo 100) has to advance by exactly one per sample.
+        let src = "fn counter(){ self + 1.0 }\nlet x = 0.0\nfn updater(){\n  x = counter()\n  updater@(now+1.0)\n}\nupdater@1.0\nfn dsp(){ counter() + x*100.0 }\n";
+        match run_vm_sched(src, 6) {
+            Ok(v) => {
+                let own: Vec<f64> = v.iter().map(|o| o % 100.0).collect();
+                if own == vec![1.0, 2.0, 3.0, 4.0, 5.0, 6.0] { println!("HOLDS"); }
+                else { println!("FAILS C05[every read or write of `self` state falls at the offset the layout assigns to THAT cell] a scheduled task with a `self` cell runs on the global storage: dsp's own counter (output mod 100) reads {own:?} instead of [1, 2, 3, 4, 5, 6] (outputs {v:?})"); }
+            }
+            Err(e) => println!("HOLDS (program rejected: {e})"),
+        }
         return;
     }
     if args.get(1).map(|s| s.as_str()) == Some("module-misc") {
